@@ -19,7 +19,7 @@ Definition perm_eqb (a b : list err) : bool :=
   forallb (fun e => Nat.eqb (ecount e a) (ecount e b)) (a ++ b).
 Definition has_syn (l : list err) : bool := existsb is_syn l.
 
-(* what the theorems assume of the abstract analyses (the toy analysis satisfies it: Proofs/EventsToy.v toy_ok) *)
+(* what the theorems assume of the abstract analyses (the toy analysis satisfies it: Proofs/EventsToyOk.v toy_ok) *)
 Record analysis_ok (A : analysis) : Prop := {
   ok_teqb : forall a b : text A, teqb A a b = true -> a = b;
   ok_tempty : forall a b : text A, tempty A a = true -> tempty A b = true -> a = b;
@@ -50,21 +50,18 @@ Section Spec.
   (* ---- conformance of an action in the world it is performed in (editor discipline) ---- *)
   Fixpoint fnodup (l : list file) : bool :=
     match l with [] => true | x :: r => negb (fmem x r) && fnodup r end.
-  (* general form: watched batches over distinct files *)
-  Definition conf_action_full (w : world A) (a : action A) : bool :=
+  Definition conf_action (w : world A) (a : action A) : bool :=
     match a with
     | ARaw _ => false
     (* saving a buffer whose file is gone re-creates the file: a client's watcher then also reports the creation,
        which this action does not send *)
     | ASave f => ahas (disk w) f || negb (ahas (ebuf w) f)
+    (* a watched-files notification names every file once; "changed" is only said of a file that exists *)
     | AWatched l =>
       fnodup (map (witem_file A) l) &&
       forallb (fun i => match i with WM f _ => ahas (disk w) f | _ => true end) l
     | _ => true
     end.
-  (* the fragment the guarded theorem is proved for: one file per watched notification *)
-  Definition conf_action (w : world A) (a : action A) : bool :=
-    conf_action_full w a && match a with AWatched (_ :: _ :: _) => false | _ => true end.
 
   Definition action_files (a : action A) : list file :=
     match a with
@@ -154,11 +151,8 @@ Section Spec.
 
   Definition conformant (dk : amap txt) (h : list (action A)) : bool :=
     fst (scan_history conf_action (fst (init_world A fx dk)) h).
-  Definition conformant_full (dk : amap txt) (h : list (action A)) : bool :=
-    fst (scan_history conf_action_full (fst (init_world A fx dk)) h).
   Definition classes (dk : amap txt) (h : list (action A)) : list N :=
     snd (scan_history conf_action (fst (init_world A fx dk)) h).
   Definition guard (dk : amap txt) (h : list (action A)) : bool := conformant dk h && is_nil (classes dk h).
-  Definition guard_full (dk : amap txt) (h : list (action A)) : bool := conformant_full dk h && is_nil (classes dk h).
 
 End Spec.
